@@ -372,8 +372,11 @@ def split_known_bytes(eng, st, toks):
                     for it in items:
                         if it[0] == "int":
                             out.append({"k": "int", "n": Lin.const(it[1]), "val": VInt(None, Lin.sym(it[2])), "prov": ("sym", it[2]), "site": t["site"]})
+                        elif it[0] == "zero":
+                            # (placeholder / reserved octets stay what they were: a run of zero octets)
+                            out.append({"k": "bytes", "n": Lin.const(it[1]), "desc": ("const", (0,) * it[1]), "site": t["site"]})
                         else:
-                            c = 0 if it[0] == "zero" else it[2]
+                            c = it[2]
                             out.append({"k": "int", "n": Lin.const(it[1]), "val": VInt(None, Lin.const(c)), "prov": ("const", c), "site": t["site"]})
                     continue
         out.append(t)
